@@ -81,6 +81,12 @@ CHECKS = {
   text="Generated chains with confidential and account transactions; attacks: same key image twice in one tx, two spends in one block (Byzantine hand-built blocks re-issued with the validator's own result fields so that the double spend is the only possible reason for rejection), re-spend of committed inputs via mempool / CheckTx / blocks, after restarts, ring size 1 vs larger ring, account tx replays, nonce gaps. "
        "Every attempt must be refused with the error class of the attacked mechanism and the read-back chain must satisfy the oracle; positive controls must be accepted. Held on the chains and attempts explored.",
   note="restart re-opens the same MemDB objects (disk flush defects and the SaveBlock/SaveUtxo crash window belong to C13/C19); only LKC confidential transfers; crypto stand-in has the real algebra but is not Monero bit-compatible."),
+ "C15": dict(
+  level="exploration", design="§5 C15", engine="chainkit",
+  technique="invariant monitoring of the real mempool against the real application after every operation of generated submission/reap/commit histories (snapshot under the pool's own lock, replica node as executability oracle); concurrent lane C15R under the race detector with exact checks of every mid-flight Reap and proposal",
+  text="Histories of 100-150 operations per case against a node with a real LinkApplication: valid / future / stale / replacement / underfunded / duplicate / oversized / under-paid submissions, confidential A->U, U->U, U->A with ring sizes 1-5, conflicting and already-spent confidential spends; Reap with caps, proposal probes validated by a replica, own commits and foreign commits with rival transactions, over pool size configurations. "
+       "After every operation: offered lists pairwise distinct, not committed, key images distinct and unspent, per-sender nonces gap-free from the committed nonce, offered and queued disjoint, executable queued transactions promoted, membership of every submitted transaction exact; a block built from a Reap must be proposed and accepted by the replica. Held on the histories explored.",
+  note="three genuine defects fixed (speculative state advanced by a rejected under-paid A->U; unsynchronised BasicChecked flag; Sender writing to the shared transaction). Wall-clock rules (GoodTxDropTime, cache expiry) are pinned off; special transactions and contract calls are not generated here (C05 does)."),
  "C09": dict(
   level="exploration", design="§5 C09", engine="refmodel",
   technique="recorded-observation and differential-twin monitoring of the real StateDB: random programs with nested snapshot/revert and copies on all four storage backends",
